@@ -3,6 +3,7 @@ package main
 import (
 	"os"
 	"strings"
+	"syscall"
 
 	"verif/internal/gen"
 	"verif/internal/ref"
@@ -26,6 +27,10 @@ const (
 	dDcMismatch         // a = block: bytes of type A decoded with the codec of type B
 	dResource           // resource table only: a = index
 )
+
+// largeParts: every large special is split into this many units (executions k with k % largeParts
+// == part), so that the expected worker deaths of one special do not serialise in one worker.
+const largeParts = 8
 
 type unit struct {
 	dom  int
@@ -51,11 +56,13 @@ func init() {
 
 // sizes of the case list per tier (counts, never durations)
 type plan struct {
+	pairEvery    int // quick tier: the (kind, version) pairs with (index + seed) % pairEvery == 0 (every kind, versions rotating with the seed)
 	frameDraws   int // exhaustive-sweep bases per (kind, version)
 	shapeBlocks  int // shape enumeration is split in this many units per pair
 	shapeEvery   int // every n-th enumerated shape is used
 	shapeFields  int // PRNG field mutants per shape
 	compDraws    int
+	compEvery    int
 	crossDraws   int
 	types        int
 	primRounds   int
@@ -73,28 +80,37 @@ type plan struct {
 
 func planOf(thorough bool) plan {
 	if thorough {
-		return plan{frameDraws: 24, shapeBlocks: 8, shapeEvery: 1, shapeFields: 192, compDraws: 6, crossDraws: 8,
-			types: 3000, primRounds: 40, segments: 1500, compress: 1200, random: 4000, large: 24,
-			dcBlocks: 6000, dcBlock: 8, dcDepth: 4, mismatch: 400, mismatchPool: 48, resource: 1500}
+		return plan{pairEvery: 1, frameDraws: 2, shapeBlocks: 4, shapeEvery: 8, shapeFields: 24, compDraws: 1, compEvery: 2, crossDraws: 2,
+			types: 400, primRounds: 6, segments: 200, compress: 200, random: 80, large: 13,
+			dcBlocks: 160, dcBlock: 8, dcDepth: 4, mismatch: 20, mismatchPool: 32, resource: 150}
 	}
-	return plan{frameDraws: 1, shapeBlocks: 2, shapeEvery: 7, shapeFields: 24, compDraws: 1, crossDraws: 1,
-		types: 120, primRounds: 2, segments: 60, compress: 48, random: 160, large: 12,
-		dcBlocks: 260, dcBlock: 8, dcDepth: 3, mismatch: 24, mismatchPool: 32, resource: 90}
+	return plan{pairEvery: 5, frameDraws: 1, shapeBlocks: 2, shapeEvery: 37, shapeFields: 12, compDraws: 1, compEvery: 6, crossDraws: 1,
+		types: 40, primRounds: 1, segments: 20, compress: 20, random: 8, large: 13,
+		dcBlocks: 12, dcBlock: 8, dcDepth: 3, mismatch: 2, mismatchPool: 24, resource: 30}
 }
 
 func buildUnits(seed int64, thorough bool) []unit {
 	p := planOf(thorough)
 	var us []unit
 	add := func(dom, a, b int) { us = append(us, unit{dom, a, b}) }
+	sel := 0
 	for pi := range pairs {
+		if (pi+int(seed%int64(p.pairEvery))+p.pairEvery)%p.pairEvery != 0 {
+			continue
+		}
+		sel++
 		for d := 0; d < p.frameDraws; d++ {
 			add(dFrameSweep, pi, d)
 		}
 		for sb := 0; sb < p.shapeBlocks; sb++ {
 			add(dFrameShapes, pi, sb)
 		}
-		for d := 0; d < p.compDraws*2; d++ {
-			add(dFrameComp, pi, d)
+		// compressed frames: every pair in the thorough tier, every compEvery-th pair in the quick tier
+		// (what is specific to them is the prefix / decompression / hand-over path, not the body decoder)
+		if sel%p.compEvery == 0 {
+			for d := 0; d < p.compDraws*2; d++ {
+				add(dFrameComp, pi, d)
+			}
 		}
 		for d := 0; d < p.crossDraws; d++ {
 			add(dMsgCross, pi, d)
@@ -118,7 +134,9 @@ func buildUnits(seed int64, thorough bool) []unit {
 		add(dRandom, i, 0)
 	}
 	for i := 0; i < p.large; i++ {
-		add(dLarge, i, 0)
+		for part := 0; part < largeParts; part++ {
+			add(dLarge, i, part)
+		}
 	}
 	for i := 0; i < p.dcBlocks; i++ {
 		add(dDatacodec, i, 0)
@@ -149,7 +167,16 @@ func buildResUnits(seed int64, thorough bool) []unit {
 
 func (wk *worker) plan() plan { return planOf(wk.thorough) }
 
+func cpuMillis() int64 {
+	var ru syscall.Rusage
+	syscall.Getrusage(0, &ru)
+	return (ru.Utime.Sec+ru.Stime.Sec)*1000 + (ru.Utime.Usec+ru.Stime.Usec)/1000
+}
+
 func (wk *worker) runUnit(u unit) {
+	wk.domain = domNames[u.dom]
+	t0 := cpuMillis()
+	defer func() { wk.counters["cpu_ms_by_domain/"+wk.domain] += cpuMillis() - t0 }()
 	switch u.dom {
 	case dFrameSweep:
 		wk.frameSweep(u.a, u.b)
@@ -170,7 +197,9 @@ func (wk *worker) runUnit(u unit) {
 	case dRandom:
 		wk.randomUnit(u.a)
 	case dLarge:
+		wk.parts, wk.part = largeParts, u.b
 		wk.largeUnit(u.a)
+		wk.parts, wk.part = 0, 0
 	case dDatacodec:
 		wk.dcUnit(u.a)
 	case dDcMismatch:
